@@ -6,6 +6,7 @@ import (
 	"errors"
 	"fmt"
 	"io"
+	"math"
 	"net"
 	"strconv"
 	"strings"
@@ -538,7 +539,10 @@ func (f *Federation) Load(service server.Server) error {
 	f.localSubStore.init(service.SubscriptionService())
 	f.retainedStore = service.RetainedService()
 	f.publisher = service.Publisher()
-	srv := grpc.NewServer()
+	// An event carries a whole MQTT message, which can be far larger than gRPC's default limit for received
+	// messages (4 MiB): a peer that sent a larger one would be refused over and over and nothing behind it on
+	// the stream would ever arrive.
+	srv := grpc.NewServer(grpc.MaxRecvMsgSize(math.MaxInt32))
 	RegisterFederationServer(srv, f)
 	l, err := net.Listen("tcp", f.config.FedAddr)
 	if err != nil {
